@@ -22,6 +22,7 @@ type goroutine struct {
 	held     map[*lockState]string // "W" or "R"
 	site     string
 	exited   chan struct{}
+	lastRecovered string
 }
 
 type sendWait struct {
